@@ -319,7 +319,11 @@ def _in_states(build, ops):
 
 
 def _flat(x, out):
-    if isinstance(x, (list, tuple)):
+    if isinstance(x, dict) and "error" not in x:
+        out.append(("{", tuple(sorted(map(str, x)))))
+        for k in sorted(x, key=str):
+            _flat(x[k], out)
+    elif isinstance(x, (list, tuple)):
         out.append(("[", len(x)))
         for y in x:
             _flat(y, out)
@@ -331,7 +335,7 @@ def _flat(x, out):
 def _same(a, b, scale=0.0):
     """Equality of nested results: same structure, NaN equal to NaN, error dicts by class, numbers to 1e-12 of the
     largest magnitude (two evaluations of the same BLAS product may differ in the last bit with the memory alignment)."""
-    if isinstance(a, dict) or isinstance(b, dict):
+    if (isinstance(a, dict) and "error" in a) or (isinstance(b, dict) and "error" in b):
         return isinstance(a, dict) and isinstance(b, dict) and a.get("error") == b.get("error")
     fa, fb = _flat(a, []), _flat(b, [])
     if len(fa) != len(fb):
@@ -427,6 +431,18 @@ def gen_cases(rng: Rng, tier):
         es = [0, 50] + rng.sample(range(1, 50), N - 2)
         X = [[Fraction(rng.randint(-8, 8), 2 ** es[i]) for _ in range(L)] for i in range(N)]  # curves of very different amplitude
         yield dict(kind="noise", order=order, X=_S(X), ck="dynrange", perm=[2, 0, 3, 1], off="0", a="3", c="1", int=False, t=[rs(x) for x in _grid(rng, L)])
+    # structured, in every run: ESTIMATORS LEAVE THE DATA AS THEY WERE: every estimator (noise variance of EVERY order 1..10, mean,
+    # covariance with every option) on dense, irregular (both encodings) and multivariate data; the object is compared with a snapshot
+    # taken before and the other estimators are run afterwards against a fresh twin
+    for flavour in ("dense", "irregular-points", "irregular-nan", "multivariate"):
+        N, m = rng.randint(3, 5), rng.randint(12, 15)  # at least 11 points: order 10 has windows
+        X, ck = _curves(rng, N, m, "rand")
+        X = [[x + 5 for x in r] for r in X]  # a level: removing it in place would be visible
+        keep = [[True] * m for _ in range(N)]
+        if flavour.startswith("irregular"):
+            keep = [[j % (i + 2) != 1 or j in (0, m - 1) for j in range(m)] for i in range(N)]
+            keep[0] = [True] * m
+        yield dict(kind="untouched", flavour=flavour, t=[rs(x) for x in rng.grid(m, uniform=True)], X=_S(X), keep=keep, ck=ck)
     # structured, in every run: the estimators on DERIVED objects (results of other operations) against freshly built twins
     for k in range(16 if big else 6):
         N = rng.randint(3, 7)
@@ -606,6 +622,86 @@ def _varhat(raw_diag, t, pts):
 
     lp = LocalPolynomial(kernel_name="epanechnikov", bandwidth=len(raw_diag) ** (-1 / 5), degree=1)
     return lp.predict(y=np.array(raw_diag), x=_cartesian_product(np.array(t)), x_new=_cartesian_product(np.array(pts)))
+
+
+def _snapshot(fd):
+    """Everything the object holds, by value: values, sampling points (and standardised points), per component / per label."""
+    if hasattr(fd, "data") and isinstance(getattr(fd, "data"), list):
+        return [_snapshot(c) for c in fd.data]
+    v = fd.values
+    if hasattr(v, "keys"):
+        return {"values": {int(k): np.array(v[k], dtype=float, copy=True).tolist() for k in sorted(v)},
+                "argvals": {int(k): np.array(fd.argvals[k]["input_dim_0"], dtype=float, copy=True).tolist() for k in sorted(fd.argvals)}}
+    return {"values": np.array(v, dtype=float, copy=True).tolist(),
+            "argvals": {k: np.array(a, dtype=float, copy=True).tolist() for k, a in fd.argvals.items()},
+            "argvals_stand": {k: np.array(a, dtype=float, copy=True).tolist() for k, a in fd.argvals_stand.items()}}
+
+
+def _impl_untouched(case):
+    from FDApy.representation.functional_data import MultivariateFunctionalData
+
+    t = _Fv(case["t"])
+    tf = fl(t)
+    X = np.array(fl(_Fm(case["X"])))
+    keep = case["keep"]
+    fl_ = case["flavour"]
+    caller = {}
+
+    def build():
+        """A fresh object; the arrays handed to the constructors are kept to see whether THEY are changed."""
+        if fl_ == "dense":
+            A = X.copy()
+            caller["arrays"] = [A]
+            return _dense([t], A)
+        if fl_.startswith("irregular"):
+            if fl_ == "irregular-nan":
+                return _irregular([tf] * len(X), [[x if kp else float("nan") for x, kp in zip(r, k)] for r, k in zip(X.tolist(), keep)])
+            return _irregular([[u for u, kp in zip(tf, k) if kp] for k in keep], [[x for x, kp in zip(r, k) if kp] for r, k in zip(X.tolist(), keep)])
+        A, B = X.copy(), (2.0 * X[::-1] - 1.0).copy()
+        caller["arrays"] = [A, B]
+        return MultivariateFunctionalData([_dense([t], A), _dense([t], B)])
+
+    irr = fl_.startswith("irregular")
+    multi = fl_ == "multivariate"
+    est = {f"noise_variance({o})": (lambda fd, o=o: fd.noise_variance(o)) for o in range(1, 11)}
+    est["noise_variance()"] = lambda fd: fd.noise_variance()
+    est["mean()"] = (lambda fd: fd.mean(method_smoothing="LP", bandwidth=0.5)) if irr else (lambda fd: fd.mean())
+    if not irr:
+        est["mean(method_smoothing='LP')"] = lambda fd: fd.mean(method_smoothing="LP", bandwidth=0.5)
+    if not multi:
+        if irr:
+            est["covariance(smooth=False, center=False)"] = lambda fd: fd.covariance(smooth=False, center=False)
+            est["covariance(LP)"] = lambda fd: fd.covariance(method_smoothing="LP", bandwidth=0.5, kwargs_center=dict(bandwidth=0.5))
+        else:
+            est["covariance()"] = lambda fd: fd.covariance()
+            est["covariance(center=False)"] = lambda fd: fd.covariance(center=False)
+            est["covariance(method_smoothing='LP')"] = lambda fd: fd.covariance(method_smoothing="LP", bandwidth=0.5)
+            est["covariance(method_smoothing='PS')"] = lambda fd: fd.covariance(method_smoothing="PS", n_segments=4)
+
+    def flat(r):
+        if hasattr(r, "values"):
+            r = r.data if hasattr(r, "data") and isinstance(r.data, list) else r.values
+        if isinstance(r, list):
+            return [flat(x) for x in r]
+        return np.asarray(r, dtype=float).tolist()
+
+    after = {"noise_variance(2)": est["noise_variance(2)"], "noise_variance(7)": est["noise_variance(7)"], "mean": est["mean()"]}
+    if not multi:
+        after["covariance"] = est["covariance(smooth=False, center=False)"] if irr else est["covariance()"]
+    fresh = {nm: _call(lambda f=f: flat(f(build()))) for nm, f in after.items()}
+    out = {"fresh": fresh, "est": {}}
+    for nm, f in est.items():
+        def one(f=f):
+            fd = build()
+            before = _snapshot(fd)
+            arrays0 = [a.copy() for a in caller.get("arrays", [])]
+            f(fd)
+            o = {"same": _same(_snapshot(fd), before) if not isinstance(before, dict) or True else None,
+                 "caller_same": all(np.array_equal(a, b, equal_nan=True) for a, b in zip(caller.get("arrays", []), arrays0))}
+            o["after"] = {an: _call(lambda g=g: flat(g(fd))) for an, g in after.items()}
+            return o
+        out["est"][nm] = _call(one)
+    return out
 
 
 def _derivations(fd, fd2, ref, t):
@@ -800,6 +896,8 @@ def _run_impl(case):
         out = _call(go)
     elif kind == "derived":
         out = _call(lambda: _impl_derived(case))
+    elif kind == "untouched":
+        out = _call(lambda: _impl_untouched(case))
     elif kind == "covirr":
         tf = fl(_Fv(case["t"]))
         X = np.array(fl(_Fm(case["X"])))
@@ -1367,6 +1465,26 @@ def oracle(case, impl):
                         f"estimate {v} is not the mean {exp} over ALL curves of the per-curve estimates {per} (too-short curves count 0)",
                         "IrregularFunctionalData.noise_variance")
         _state_violations(impl["states"], bad, lambda nm: "IrregularFunctionalData." + nm.split("(")[0])
+    elif kind == "untouched":
+        cls = {"dense": "DenseFunctionalData", "irregular-points": "IrregularFunctionalData", "irregular-nan": "IrregularFunctionalData",
+               "multivariate": "MultivariateFunctionalData"}[case["flavour"]]
+        if "error" in impl:
+            bad("runs", f"estimators on {case['flavour']} data raised {impl['error']}: {impl.get('msg')}", cls)
+            return vs
+        for nm, r in impl["est"].items():
+            entry = cls + "." + nm.split("(")[0]
+            if isinstance(r, dict) and "error" in r:
+                bad("runs", f"{nm} on {case['flavour']} data raised {r['error']}: {r.get('msg')}", entry)
+                continue
+            if not r["same"] or not r["caller_same"]:
+                bad("data_untouched", f"{nm} changed the {'arrays the caller handed in' if not r['caller_same'] else 'object'} ({case['flavour']} data): "
+                    "values / sampling points differ from the snapshot taken before the call", entry, ["estimator-mutates-data"])
+                continue
+            for an, a in r["after"].items():
+                if not _same(a, impl["fresh"][an]):
+                    bad("stale_state", f"{an} after {nm} on the same {case['flavour']} object gives {str(a)[:80]}, a fresh object {str(impl['fresh'][an])[:80]}",
+                        cls + "." + an.split("(")[0], ["history", "after-estimator"])
+                    break
     elif kind == "derived":
         if "error" in impl:
             bad("runs", f"derived objects raised {impl['error']}: {impl.get('msg')}", "DenseFunctionalData")
